@@ -49,6 +49,8 @@ def oracle(rep):
     keys, last, regd, torn, maybe_all = set(), {}, {}, None, set()
     for op, line in zip(rep["ops"], rep["impl"]):
         f = op.split(" ")
+        if line.startswith("timeout"):
+            continue   # the rig did not answer in time (load): common.py re-runs such a case alone with a larger budget
         if line == "panic":
             return (None, "`%s` panicked" % op)
         if f[0] == "case":
